@@ -600,6 +600,27 @@ func (d *Dag) delayedExtension(rng *rand.Rand, lag int) []*DagEvent {
 // and others do not. It is used as a *workload search heuristic* only (to pick
 // DAGs that exercise the coin-round logic), never as an oracle.
 func electionProfile(x *DagExec) (partialBeforeCoin int, maxDiff int) {
+	partialBeforeCoin, maxDiff, _ = electionProfileZ(x)
+	return
+}
+
+// electionProfileZ also returns the witnesses (hashes) from which a node could
+// look at such an election without knowing the deciders: delivering their
+// ancestry first reproduces the view of a node that went through the coin round.
+func electionProfileZ(x *DagExec) (partialBeforeCoin int, maxDiff int, free []string) {
+	partialBeforeCoin, maxDiff, free, _ = electionProfileFull(x)
+	return
+}
+
+// partialInfo: an election in which, right before a coin round, only some of
+// the witnesses present could decide, and decided "not famous".
+type partialInfo struct {
+	Round    int
+	Deciders []string
+	Total    int
+}
+
+func electionProfileFull(x *DagExec) (partialBeforeCoin int, maxDiff int, free []string, partials []partialInfo) {
 	h, st := x.H, x.Store
 	last := st.LastRound()
 	for r := 0; r <= last-4; r++ {
@@ -670,23 +691,37 @@ func electionProfile(x *DagExec) (partialBeforeCoin int, maxDiff int) {
 				if diff > maxDiff && total > 0 {
 					maxDiff = diff
 				}
+				if profileDebug != nil && diff%4 == 3 && deciders < total {
+					profileDebug(fmt.Sprintf("r=%d diff=%d total=%d deciders=%d noDeciders=%d", r, diff, total, deciders, noDeciders))
+				}
 				if diff%4 != 0 && deciders > 0 {
 					if deciders < total && diff%4 == 3 && noDeciders > 0 {
+						partials = append(partials, partialInfo{Round: j, Deciders: append([]string{}, noDeciderList...), Total: total})
 						// is there a witness two rounds later that does not descend from any
 						// of the deciders (a node can reach it without having them)?
-						if r2, err := st.GetRound(j + 2); err == nil {
+						hit := false
+						for _, jj := range []int{j + 2, j + 3} {
+							r2, err := st.GetRound(jj)
+							if err != nil {
+								continue
+							}
 							for _, z := range r2.Witnesses() {
-								free := true
+								isFree := true
 								for _, y0 := range noDeciderList {
 									if a, _ := h.VerifAncestor(z, y0); a {
-										free = false
+										isFree = false
 									}
 								}
-								if free {
-									partialBeforeCoin++
-									break
+								if isFree {
+									free = append(free, z)
+									if jj == j+2 {
+										hit = true
+									}
 								}
 							}
+						}
+						if hit {
+							partialBeforeCoin++
 						}
 					}
 					if deciders == total {
@@ -699,6 +734,8 @@ func electionProfile(x *DagExec) (partialBeforeCoin int, maxDiff int) {
 	}
 	return
 }
+
+var profileDebug func(string)
 
 func middleBitOf(hexs string) bool {
 	b, err := decodeHex(hexs)
